@@ -46,6 +46,29 @@ TOL = Fraction(1, 2 ** 40)
 DRIVER_TIMEOUT = float(os.environ.get("VERIF_DRIVER_TIMEOUT", "240"))
 
 
+def repo_root() -> Path:
+    return Path(os.environ.get("VERIF_REPO") or "/repo")
+
+
+def source_changes():
+    """files of the rpylib package whose syntax tree differs from the record of the commit the models were last validated
+    against (anchors.json, tools/gen_anchors.py).  Only used to size the exploration and to inform the evidence."""
+    rec = ROOT / "anchors.json"
+    if not rec.exists():
+        return None, []
+    import importlib.util
+    spec = importlib.util.spec_from_file_location("gen_anchors", ROOT / "tools" / "gen_anchors.py")
+    ga = importlib.util.module_from_spec(spec)
+    spec.loader.exec_module(ga)
+    base = json.loads(rec.read_text())
+    now = ga.fingerprints(repo_root())
+    changed = sorted(k for k in set(base["files"]) | set(now) if base["files"].get(k) != now.get(k))
+    return base.get("validated_repo_commit"), changed
+
+
+BOOST = 3          # quick-tier budget multiplier when the tree under test differs from the validated record
+
+
 class Infra(Exception):
     """Infrastructure problem (exit 2) – never a verdict about the property."""
 
@@ -237,10 +260,16 @@ class Ctx:
         self.work = WORK / prop
         self.work.mkdir(parents=True, exist_ok=True)
         self.thorough = tier == "thorough"
+        self.validated_commit, self.changed_files = source_changes()
+        self.boost = bool(self.changed_files) and not self.thorough and os.environ.get("VERIF_NO_BOOST") != "1"
 
     # budgets: n(quick, thorough)
     def n(self, quick, thorough):
-        return thorough if self.thorough else quick
+        if self.thorough:
+            return thorough
+        if self.boost and type(quick) is int and type(thorough) is int and thorough > quick:
+            return min(thorough, BOOST * quick)
+        return quick
 
     def driver(self, name=None) -> Driver:
         name = name or self.prop
